@@ -131,7 +131,10 @@ def nested_cases():
 
 def run_nested(acc, c):
     from ..prog import run_program
-    run_program(acc, {"prog": c["prog"], "kind": "nested"}, c["prog"], [(0,), (3,), (0, 0), (3, 0)], ["mc1", "mc3"], (False, True), explore_all=False)
+    from .. import ir
+    has_setup = any(fn in repr(c["prog"]) for fn in ir.SETUP_FNS)  # setup nodes run once per DAG object, not once per call
+    run_program(acc, {"prog": c["prog"], "kind": "nested"}, c["prog"], [(0,), (3,), (0, 0), (3, 0)], ["mc1", "mc3"], (False, True), explore_all=False,
+                stateful_setup=has_setup)
     acc.mark_nontrivial(("nested", repr(c["prog"]["body"])[:300]))
     acc.mark_nontrivial(("nested2", repr(c["prog"]["ret"])[:300]))
 
